@@ -300,6 +300,12 @@ WebSocketMsg WebSocket::receive()
 		if (masked)
 			_socket >> mask;
 
+		if (_socket.error()) // the stream ended inside the frame header: the fields above are not valid
+		{
+			close();
+			return msg.fix();
+		}
+
 		buffer.resize(buffer.length() + len);
 		if (len > 0)
 			_socket.read(buffer.data() + buffer.length() - len, len);
